@@ -90,6 +90,7 @@ type cat struct {
 	coqSchema string   // the same as a Coq term
 	maxLevels []string // "r:d" per leaf, from the library
 	exec      func(rows reflect.Value, split []int) [numPaths]pathResult
+	execR     func(rows reflect.Value, split []int) [numReuse]pathResult // the same batches from reused caller memory (reuse.go)
 	recon     func(row parquet.Row) (reflect.Value, error)
 }
 
@@ -142,6 +143,9 @@ func mkx[T any](name string, schema *parquet.Schema, opts ...catOpt) (c *cat) {
 	}
 	c.exec = func(rows reflect.Value, split []int) [numPaths]pathResult {
 		return execPaths[T](c, rows.Interface().([]T), split)
+	}
+	c.execR = func(rows reflect.Value, split []int) [numReuse]pathResult {
+		return execReuse[T](c, rows.Interface().([]T), split)
 	}
 	c.recon = func(row parquet.Row) (reflect.Value, error) {
 		var back T
@@ -1562,12 +1566,19 @@ var vmCases []vmCase
 // correspondence with the model.  Returns false if something was reported.
 func checkCase(c *core.Ctx, ct *cat, rows reflect.Value, split []int, wantVm bool) bool {
 	n := rows.Len()
+	// the reuse regime (reuse.go) runs beside the fresh-memory matrix: it has
+	// its own copies of the rows in its own backing stores
+	var reuseCh chan [numReuse]pathResult
+	if withReuse {
+		reuseCh = make(chan [numReuse]pathResult, 1)
+		go func() { reuseCh <- ct.execR(rows, split) }()
+	}
 	res := ct.exec(rows, split)
 	replay := func() any { return mkReplay(ct, rows, split) }
 	ok := true
 	for p, r := range res {
 		if r.err != "" && !r.skipped {
-			c.Violation("path-error:"+ct.name, fmt.Sprintf("type %s, %d rows: path %s failed: %s", ct.name, n, pathNames[p], r.err), replay())
+			report(c, "path-error:"+ct.name, fmt.Sprintf("type %s, %d rows: path %s failed: %s", ct.name, n, pathNames[p], r.err), replay())
 			ok = false
 		}
 	}
@@ -1581,7 +1592,7 @@ func checkCase(c *core.Ctx, ct *cat, rows reflect.Value, split []int, wantVm boo
 			continue
 		}
 		if len(r.rows) != n {
-			c.Violation("row-count-differs:"+ct.name, fmt.Sprintf("type %s: path %s returned %d rows for %d written", ct.name, pathNames[p], len(r.rows), n), replay())
+			report(c, "row-count-differs:"+ct.name, fmt.Sprintf("type %s: path %s returned %d rows for %d written", ct.name, pathNames[p], len(r.rows), n), replay())
 			return false
 		}
 		canon[p] = make([][]entry, n)
@@ -1612,7 +1623,7 @@ func checkCase(c *core.Ctx, ct *cat, rows reflect.Value, split []int, wantVm boo
 				if ct.multimap || kind == "" {
 					kind = "streams-differ"
 				}
-				c.Violation(kind+":"+ct.name, fmt.Sprintf("type %s, row %d of %d: path %s gives [%s] but path %s gives [%s]",
+				report(c, kind+":"+ct.name, fmt.Sprintf("type %s, row %d of %d: path %s gives [%s] but path %s gives [%s]",
 					ct.name, i, n, pathNames[0], core.Trunc(a, 600), pathNames[p], core.Trunc(b, 600)), replay())
 				ok = false
 				break
@@ -1621,6 +1632,11 @@ func checkCase(c *core.Ctx, ct *cat, rows reflect.Value, split []int, wantVm boo
 		if !ok {
 			break
 		}
+	}
+	// predicate 1b: the same batches fed from reused caller memory, overwritten
+	// as soon as each call returned, give the same streams
+	if ok && reuseCh != nil {
+		ok = checkReuse(c, ct, n, split, <-reuseCh, canon, text, replay)
 	}
 	// predicate 2: Reconstruct(Deconstruct(v)) is v up to the nil/empty normalisation
 	mvals := make([]*mv, n)
@@ -1638,13 +1654,13 @@ func checkCase(c *core.Ctx, ct *cat, rows reflect.Value, split []int, wantVm boo
 				return ct.recon(res[0].rows[i])
 			}()
 			if err != nil {
-				c.Violation("reconstruct-error:"+ct.name, fmt.Sprintf("type %s row %d: Reconstruct failed: %v", ct.name, i, err), replay())
+				report(c, "reconstruct-error:"+ct.name, fmt.Sprintf("type %s row %d: Reconstruct failed: %v", ct.name, i, err), replay())
 				ok = false
 				break
 			}
 			got := mValue(ct.schema, back).String()
 			if want := mvals[i].String(); got != want {
-				c.Violation("reconstruct-differs:"+ct.name, fmt.Sprintf("type %s row %d: Reconstruct(Deconstruct(v)) = %s, v = %s (model value syntax)", ct.name, i, core.Trunc(got, 600), core.Trunc(want, 600)), replay())
+				report(c, "reconstruct-differs:"+ct.name, fmt.Sprintf("type %s row %d: Reconstruct(Deconstruct(v)) = %s, v = %s (model value syntax)", ct.name, i, core.Trunc(got, 600), core.Trunc(want, 600)), replay())
 				ok = false
 				break
 			}
@@ -1653,7 +1669,7 @@ func checkCase(c *core.Ctx, ct *cat, rows reflect.Value, split []int, wantVm boo
 				normEmpty(a)
 				normEmpty(b)
 				if !reflect.DeepEqual(a.Interface(), b.Interface()) {
-					c.Violation("reconstruct-differs:"+ct.name, fmt.Sprintf("type %s row %d: Reconstruct(Deconstruct(v)) = %+v, v = %+v", ct.name, i, b.Interface(), a.Interface()), replay())
+					report(c, "reconstruct-differs:"+ct.name, fmt.Sprintf("type %s row %d: Reconstruct(Deconstruct(v)) = %+v, v = %+v", ct.name, i, b.Interface(), a.Interface()), replay())
 					ok = false
 					break
 				}
@@ -1729,6 +1745,14 @@ func checkCase(c *core.Ctx, ct *cat, rows reflect.Value, split []int, wantVm boo
 	return ok
 }
 
+// report records what was found (also while probing silently) and reports it
+func report(c *core.Ctx, class, what string, replay any) {
+	lastWhat = class + ": " + what
+	c.Violation(class, what, replay)
+}
+
+var lastWhat string
+
 // runCase checks a batch; a failing batch is shrunk (fewer rows, then simpler
 // values) before it is reported.
 func runCase(c *core.Ctx, ct *cat, rows reflect.Value, split []int, bucket string, wantVm bool) bool {
@@ -1742,7 +1766,12 @@ func runCase(c *core.Ctx, ct *cat, rows reflect.Value, split []int, bucket strin
 		if hangs > h0 {
 			shrinkBudget = 12 // every probe of a hanging case costs the timeout
 		}
+		first := lastWhat
 		min, msplit := shrinkCase(c, ct, rows, split)
+		if !c.Probe(func() { checkCase(c, ct, min, msplit, false) }) {
+			// the failure did not recur on the same input: it is reported as it was seen
+			c.Violation("unstable-result:"+ct.name, fmt.Sprintf("type %s, %d rows: a failure was observed once and not again on the same batch (the outcome depends on something else than the input); first observed: %s", ct.name, rows.Len(), core.Trunc(first, 1500)), mkReplay(ct, rows, split))
+		}
 		checkCase(c, ct, min, msplit, false)
 		for p := range hungPaths {
 			if !pathDisabled[p] {
@@ -2575,7 +2604,7 @@ func randSplit(rng *rand.Rand, n int) []int {
 // ---------------------------------------------------------------------------
 
 func runC03(c *core.Ctx) {
-	c.Res.Rule = "catalogue of 129 entries = 88 compiled struct types under SchemaOf(T) or one or more explicit schemas: (1) required / `optional` scalars of every kind, pointers, repeated and LIST slices, nested lists, slices and maps of structs, embedded and nested structs, optional groups with repeated fields and vice versa, 3 levels of nesting; (2) every struct tag option of schema.go makeNodeOf: int(n)/uint(n) narrower, equal, wider and of the other signedness than the Go type, uintptr, decimal on int32/int64/[n]byte/[]byte, date/timestamp(unit[:utc|local])/time(unit) on integers, time.Time, time.Duration and their pointers, uuid on [16]byte/string, enum, string, bytes, interval on [12]byte/parquet.Interval, geometry, geography, json on strings / byte slices / structs / maps / slices / numbers / map[string]any, json.RawMessage, json.Number, variant, delta/split/dict/plain and per-field codecs, `-`, `-,`, renamed and unexported fields (holding data), id(n), `optional` on every Go kind, parquet-key/parquet-value/parquet-element tags, byte arrays of 12 sizes, *map, []*struct, maps of lists / maps / structs, lists of >1024 elements; (3) `any` fields written with an explicit schema node (leaf of each physical type required/optional/repeated/LIST/optional LIST of optional; variant; map[string]any to required/optional groups; []any and []map[string]any to repeated groups and LISTs) at top level and below optional groups, repeated groups and LISTs, []any / map[string]any / map[string]string typed fields; (4) T with an explicit schema equal to SchemaOf(T), with the fields sorted (top level / every depth), optional<->required flipped, LIST<->repeated flipped, other physical / logical types. Values are generated along the schema: every nullable site (pointer, zero-able scalar, slice, map, interface) follows, inverts or ignores a per-row (and per-element) run pattern with runs of 1..130 crossing 64-row words; batch sizes 1..200 plus one single Write call of 513..1300 rows per type (quick tier: every other type, alternating with the seed); each batch goes through the fourteen ingestion paths (whole batch or split into several Write calls; the typed and the reflection buffer additionally with the rows reversed through Swap before reading); predicate: identical (column, value, r, d) sequences per row on every path, Reconstruct(Deconstruct(v)) = v up to nil/empty where Reconstruct is lossless; correspondence: Deconstruct streams = model shred_rows (= model shred_batch) on the harness' Go-value -> model-value mapping, model asm of the streams = the value. Plus a regression batch per repaired defect, five known findings pinned on fixed inputs, and the null-run sweep: single-word patterns with <= 3 runs at every in-word offset through the typed path on optional fields of every null-index kernel, compared with the pattern and with the model's scan. A case = (type, batch, split); non-trivial = at least 2 rows; distinct by type + JSON of the batch."
+	c.Res.Rule = "catalogue of 129 entries = 88 compiled struct types under SchemaOf(T) or one or more explicit schemas: (1) required / `optional` scalars of every kind, pointers, repeated and LIST slices, nested lists, slices and maps of structs, embedded and nested structs, optional groups with repeated fields and vice versa, 3 levels of nesting; (2) every struct tag option of schema.go makeNodeOf: int(n)/uint(n) narrower, equal, wider and of the other signedness than the Go type, uintptr, decimal on int32/int64/[n]byte/[]byte, date/timestamp(unit[:utc|local])/time(unit) on integers, time.Time, time.Duration and their pointers, uuid on [16]byte/string, enum, string, bytes, interval on [12]byte/parquet.Interval, geometry, geography, json on strings / byte slices / structs / maps / slices / numbers / map[string]any, json.RawMessage, json.Number, variant, delta/split/dict/plain and per-field codecs, `-`, `-,`, renamed and unexported fields (holding data), id(n), `optional` on every Go kind, parquet-key/parquet-value/parquet-element tags, byte arrays of 12 sizes, *map, []*struct, maps of lists / maps / structs, lists of >1024 elements; (3) `any` fields written with an explicit schema node (leaf of each physical type required/optional/repeated/LIST/optional LIST of optional; variant; map[string]any to required/optional groups; []any and []map[string]any to repeated groups and LISTs) at top level and below optional groups, repeated groups and LISTs, []any / map[string]any / map[string]string typed fields; (4) T with an explicit schema equal to SchemaOf(T), with the fields sorted (top level / every depth), optional<->required flipped, LIST<->repeated flipped, other physical / logical types. Values are generated along the schema: every nullable site (pointer, zero-able scalar, slice, map, interface) follows, inverts or ignores a per-row (and per-element) run pattern with runs of 1..130 crossing 64-row words; batch sizes 1..200 plus one single Write call of 513..1300 rows per type (quick tier: every other type, alternating with the seed); each batch goes through the fourteen ingestion paths (whole batch or split into several Write calls; the typed and the reflection buffer additionally with the rows reversed through Swap before reading), and every case a second time from REUSED CALLER MEMORY: thirteen entry points (the eleven Write / WriteRows / WriteRowValues paths of the matrix plus RowBuffer[T].WriteRows and Buffer.WriteRows of rows deconstructed from the store) are each fed, with the same calls, from one reused backing store (the same []T / []*T / []any / []Row / []Value, the same byte regions behind byte slices and strings, arrays inline, pooled nested slices, maps and pointer targets refilled in place) that is overwritten with a poison pattern as soon as each call has returned and before the next batch is laid out over it, the rows handed to WriteRows / WriteRowValues included; predicate: identical (column, value, r, d) sequences per row on every path, the streams stored from reused (and since overwritten) caller memory exactly those of the same path on fresh memory, Reconstruct(Deconstruct(v)) = v up to nil/empty where Reconstruct is lossless; correspondence: Deconstruct streams = model shred_rows (= model shred_batch) on the harness' Go-value -> model-value mapping, model asm of the streams = the value. Plus a regression batch per repaired defect, five known findings pinned on fixed inputs, and the null-run sweep: single-word patterns with <= 3 runs at every in-word offset through the typed path on optional fields of every null-index kernel, compared with the pattern and with the model's scan. A case = (type, batch, split); non-trivial = at least 2 rows; distinct by type + JSON of the batch."
 	t0 := time.Now()
 	debug.SetGCPercent(400)                    // the writers allocate their page buffers anew for every case
 	if pf := os.Getenv("C03_PROF"); pf != "" { // debugging aid
@@ -2590,7 +2619,7 @@ func runC03(c *core.Ctx) {
 			continue // debugging aid
 		}
 		if ct.broken != "" {
-			c.Violation("schema-panic:"+ct.name, fmt.Sprintf("type %s: building the schema / the catalogue entry panicked: %s", ct.name, ct.broken), ct.name)
+			report(c, "schema-panic:"+ct.name, fmt.Sprintf("type %s: building the schema / the catalogue entry panicked: %s", ct.name, ct.broken), ct.name)
 			continue
 		}
 		cats = append(cats, ct)
@@ -2684,6 +2713,7 @@ func runC03(c *core.Ctx) {
 			fmt.Fprintf(os.Stderr, "TIME %-28s %6.2fs\n", ct.name, time.Since(tType).Seconds())
 		}
 	}
+	c.Note("%d cases were also written from reused caller memory (13 entry points each, poisoned after every call) and compared with the fresh-memory streams", reuseCases)
 	if !c.Quick() {
 		c.Note("every batch size 1..200 for every catalogue type (%d types), and single Write calls of 513, 600, 1025, 1100 and 1300 rows", len(cats))
 	} else {
